@@ -136,7 +136,7 @@ theorem C03_propagates_deps_step (F : Flags) (o : Obs) (x : Act) (r : Res) (y : 
   | depsDoneOk _ rs hp hd hr ha => rw [hok] at hr; cases hr
   | depsDoneFail _ rs hp hd hr hm =>
     refine ⟨rfl, rfl, rfl, ?_, rfl, rfl⟩
-    simp only [Act.stop, depErr_isOk]; exact hok
+    simp only [Act.stop, Act.stopDeps, depErr_isOk]; exact hok
 
 /-- **(c) `deps_ok_before_body`.** In every reachable configuration an activation that is in
 its guards or command loop, or has ever started a command or registered a `defer:`, has
@@ -415,7 +415,7 @@ theorem C03_status_dep (F : Flags) (o : Obs) (x : Act) (n : Nat) (y : Act) (eff 
     y.res = .run (.exit n) ∧ exitCode y.res false = 201 ∧ exitCode y.res true = n := by
   obtain ⟨e, _⟩ := C03_propagates_deps_step F o x (.exit n) y eff hs rfl
   rw [e]
-  simp only [Act.stop, depErr, hd]
+  simp only [Act.stop, Act.stopDeps, depErr, hd]
   exact ⟨rfl, rfl, rfl⟩
 
 /-- one level of the way an error travels up: through a non-deferred `task:` entry of `x`
@@ -443,7 +443,7 @@ theorem Level.res_exit (l : Level) (n : Nat) (hi : l.act.def_.ignoreError = fals
   cases l with
   | call x t => exact (C03_not_ignored_stops x (.call t false) n hi (fun _ _ h => by cases h)).2.1
   | dep x =>
-    simp only [Level.res, Act.stop, depErr, wrap, Level.act]
+    simp only [Level.res, Act.stop, Act.stopDeps, depErr, wrap, Level.act]
     by_cases h : x.indirect = true <;> simp [h]
 
 /-- **any depth.** An exit status `n` passes unchanged through any number of levels of
